@@ -405,7 +405,7 @@ class Ctx:
                 r = _exact_root(fr, degree)
                 if r is not None:
                     return SR(rv(r), c=r)
-        if degree == 2 and getattr(self, "intern_roots", True) and _has_div(arg):
+        if degree == 2 and getattr(self, "intern_roots", True) and not os.environ.get("VT_NO_ROOT1") and _has_div(arg):
             # norm of an already normalised column: sum_i (x_i/n)^2 with n*n folded back to sum_j x_j^2 is identically 1 wherever
             # the denominators are non-zero (definedness assumption); refuted by one random evaluation when it is not
             try:
@@ -472,18 +472,24 @@ def _has_div(t, _budget=[0]):
     seen = set()
     stack = [t]
     n = 0
-    while stack and n < 4000:
+    found = False
+    while stack:
         x = stack.pop()
         i = x.get_id()
         if i in seen:
             continue
         seen.add(i)
         n += 1
+        if n > 600:
+            return False  # large terms (nested clip / If chains of multiplicative updates): not worth an identity test per root
         if z3.is_app(x):
-            if x.decl().kind() == z3.Z3_OP_DIV and not z3.is_rational_value(x):
-                return True
+            k = x.decl().kind()
+            if k == z3.Z3_OP_ITE:
+                return False
+            if k == z3.Z3_OP_DIV and not z3.is_rational_value(x):
+                found = True
             stack.extend(x.children())
-    return False
+    return found
 
 
 def _zero_const(o):
